@@ -172,6 +172,13 @@ def run(tier, res, replay=None):
     sl = dict(scenarios.single_lattice(rng, tier))
     rec = cl + [(k, sl[k]) for k in ('multi-simple', 'multi-6node',
                                      'rod3-dd-flowbyp')]
+    # the same cores with the duct values listed in other orders
+    import copy
+    for lab, c in cl:
+        for listing in ('desc', 'outer-first'):
+            cc = copy.deepcopy(c)
+            cc['ftf_listing'] = listing
+            rec.append((f'{lab}-{listing}', cc))
     with ProcessPoolExecutor(max_workers=common.NCPU) as ex:
         traces = list(ex.map(synth_trace, syn, chunksize=8))
         for t in ex.map(recorded_trace, rec):
